@@ -33,6 +33,7 @@ func runC02(c *core.Ctx) {
 	c.RuleDoc("R02.14", "the content grows by exactly the tested target minus its current length")
 	c.RuleDoc("R02.15", "positioned methods, Truncate, Stat and Chmod never store the handle's offset")
 	c.RuleDoc("R02.17", "a sequential read/write stores the offset on every path after its positioned call")
+	c.RuleDoc("R02.18", "the window of the content a positioned read selects starts at or before the end of the content (an offset past the end answers EOF, not a bounds error)")
 	c.RuleDoc("R02.16", "write methods copy the caller's bytes, they never store the buffer")
 	c.RuleDoc("R02.12", "a mutation whose write-back fails is undone")
 	c.RuleDoc("R02.8", "a positioned write refuses a handle opened with O_APPEND")
@@ -55,6 +56,7 @@ func runC02(c *core.Ctx) {
 		r02GrowExact(c, p, fileT)
 		r02OffsetWriters(c, p, fileT)
 		r02SequentialAdvances(c, p, fileT)
+		r02WindowStartsInside(c, p, fileT)
 		r02NoAdopt(c, p, fileT, "R02.16")
 		r02SeekValidates(c, p, fileT)
 		r02FailedSaveRestores(c, p, fileT)
@@ -76,6 +78,7 @@ func runC02(c *core.Ctx) {
 	c.Floor("R02.15", 5)
 	c.Floor("R02.16", 3)
 	c.Floor("R02.17", 2)
+	c.Floor("R02.18", 1)
 }
 
 func blobFuncs(p *load.Program, names ...string) map[*ssa.Function]bool {
@@ -963,12 +966,23 @@ func (l linForm) equal(o linForm) bool {
 
 // linOf: v as an integer linear form on this path. Len() of one receiver value is one atom (no CSE in go/ssa).
 func linOf(ps *ssax.PathState, v ssa.Value, depth int) linForm {
+	return linOfWith(ps, v, depth, nil)
+}
+
+// linOfWith: like linOf, with a caller-supplied naming of atoms (values that denote one quantity, e.g. every load of
+// one field, get one name).
+func linOfWith(ps *ssax.PathState, v ssa.Value, depth int, atom func(ssa.Value) (string, bool)) linForm {
 	v = ps.Resolve(v)
+	if atom != nil {
+		if a, ok := atom(v); ok {
+			return linForm{atoms: map[string]int64{a: 1}}
+		}
+	}
 	if depth < 12 {
 		switch x := v.(type) {
 		case *ssa.Convert:
 			if b, ok := x.X.Type().Underlying().(*types.Basic); ok && b.Info()&types.IsInteger != 0 {
-				return linOf(ps, x.X, depth+1)
+				return linOfWith(ps, x.X, depth+1, atom)
 			}
 		case *ssa.Const:
 			if k, ok := ssax.ConstInt(x); ok {
@@ -977,9 +991,9 @@ func linOf(ps *ssax.PathState, v ssa.Value, depth int) linForm {
 		case *ssa.BinOp:
 			switch x.Op {
 			case token.ADD:
-				return linOf(ps, x.X, depth+1).add(linOf(ps, x.Y, depth+1), 1)
+				return linOfWith(ps, x.X, depth+1, atom).add(linOfWith(ps, x.Y, depth+1, atom), 1)
 			case token.SUB:
-				return linOf(ps, x.X, depth+1).add(linOf(ps, x.Y, depth+1), -1)
+				return linOfWith(ps, x.X, depth+1, atom).add(linOfWith(ps, x.Y, depth+1, atom), -1)
 			}
 		case *ssa.Call:
 			if x.Call.IsInvoke() && x.Call.Method.Name() == "Len" && len(x.Call.Args) == 0 {
@@ -1337,5 +1351,47 @@ func r02SequentialAdvances(c *core.Ctx, p *load.Program, fileT *types.Named) {
 	}
 	if n < 2 {
 		c.Hard("anchor: sequential methods of keyvalue.file that pass the offset on (found %d)", n)
+	}
+}
+
+// r02WindowStartsInside (R02.18): where a method of the file handle selects a window of the content with blob.View or
+// blob.Slice and the window's start comes from a parameter, the dominating comparisons entail start <= Len(content).
+// An offset past the end is an ordinary request that answers (0, io.EOF); handed on to the blob it comes back as a
+// bounds error instead. An end-of-content test that is an equality ("nothing remaining") leaves offsets beyond it
+// unguarded.
+func r02WindowStartsInside(c *core.Ctx, p *load.Program, fileT *types.Named) {
+	for _, fn := range methodList(p, fileT) {
+		ord := ordinals{}
+		ssax.Instrs(fn, func(ins ssa.Instruction) {
+			cl, ok := ins.(*ssa.Call)
+			if !ok || len(cl.Call.Args) != 3 || !(ssax.CalleeIs(cl, mod+"/keyvalue/blob", "View") || ssax.CalleeIs(cl, mod+"/keyvalue/blob", "Slice")) {
+				return
+			}
+			start := ssax.StripIntConv(cl.Call.Args[1])
+			if _, isParam := start.(*ssa.Parameter); !isParam {
+				return
+			}
+			src := cl.Call.Args[0]
+			canon := func(v ssa.Value) (ssax.Term, bool) {
+				v = ssax.StripIntConv(v)
+				if k, ok := ssax.ConstInt(v); ok {
+					return ssax.Term{IsConst: true, Const: k}, true
+				}
+				switch x := v.(type) {
+				case *ssa.Parameter:
+					return ssax.Term{Sym: paramSym(x)}, true
+				case *ssa.Call:
+					if m := ssax.InvokeMethod(x); m != nil && m.Name() == "Len" && x.Call.Value == src {
+						return ssax.Term{Sym: "LEN(content)"}, true
+					}
+				}
+				return ssax.Term{Sym: "v:" + v.Name()}, true
+			}
+			key := fname(fn) + "|" + ord.next("window-start")
+			b := ssax.NewBounds(ssax.FactsAtInstr(cl), canon)
+			t, _ := canon(start)
+			c.Check(b.LE(t, ssax.Term{Sym: "LEN(content)"}, 0), "R02.18", key, p.Pos(cl.Pos()), "the window's start is at most the content length by dominating guards",
+				fmt.Sprintf("%s selects a window of the content starting at its offset parameter, and no dominating comparison bounds that offset by the content's length: a read at an offset past the end reaches the blob, which answers a bounds error where the file must answer (0, io.EOF)", fname(fn)))
+		})
 	}
 }
